@@ -5,6 +5,7 @@ import sys, random
 
 SRC='''
 from pymtl3 import *
+from pymtl3.dsl import CalleePort, CallerPort, method_port, update_once
 
 class LeafA( Component ):
   def construct( s ):
@@ -35,6 +36,24 @@ class LeafC( Component ):
     @update
     def up_c2(): pass
     s.add_constraints( U(up_c2) < U(up_c) )
+
+class AdderCL( Component ):
+  @method_port
+  def add3( s, x ):
+    return x + 3
+  def construct( s ):
+    pass
+
+class LeafM( Component ):
+  # child whose behaviour goes through an internal caller -> callee method connection
+  def construct( s ):
+    s.in_ = InPort( Bits8 ); s.out = OutPort( Bits8 )
+    s.helper = AdderCL()
+    s.add    = CallerPort()
+    connect( s.add, s.helper.add3 )
+    @update_once
+    def up_call():
+      s.out @= s.add( s.in_ )
 
 class Mid( Component ):
   def construct( s, Leaves ):
@@ -87,6 +106,8 @@ def metadata(top):
   d['reads']=sorted((bn(b),tuple(sorted(nm(x) for x in v))) for b,v in rd.items())
   d['writes']=sorted((bn(b),tuple(sorted(nm(x) for x in v))) for b,v in wr.items())
   uu,rdu,wru,mc=top.get_all_explicit_constraints()
+  d['levels']=sorted((nm(x),x.get_component_level()) for x in top.get_all_components())
+  d['method_nets']=sorted((nm(w),tuple(sorted(nm(x) for x in net))) for w,net in top.get_all_method_nets())
   d['U_U']=sorted((bn(a),bn(b)) for a,b in uu)
   d['RD_U']=sorted((nm(k),tuple(sorted((s_,bn(b)) for s_,b in v))) for k,v in rdu.items() if v)
   d['WR_U']=sorted((nm(k),tuple(sorted((s_,bn(b)) for s_,b in v))) for k,v in wru.items() if v)
@@ -95,16 +116,21 @@ def metadata(top):
 def cases():
   out=[]
   for kind in ('attr','attr-block','list','deep'):
-    for a,b in (('LeafA','LeafB'),('LeafB','LeafA'),('LeafA','LeafC'),('LeafC','LeafA'),('LeafC','LeafB'),('LeafA','LeafA')):
+    for a,b in (('LeafA','LeafB'),('LeafB','LeafA'),('LeafA','LeafC'),('LeafC','LeafA'),('LeafC','LeafB'),('LeafA','LeafA'),('LeafA','LeafM'),('LeafM','LeafA')):
       for how in ('class','obj','twice'):
         out.append(dict(kind=kind,old=a,new=b,how=how))
   return out
 
 def trace(top,seed,n=6):
   from pymtl3 import DefaultPassGroup
-  top.apply(DefaultPassGroup()); top.sim_reset(); rng=random.Random(seed); tr=[]
+  top.apply(DefaultPassGroup()); rng=random.Random(seed); tr=[]
+  try: top.sim_reset()
+  except (NameError,NotImplementedError): pass      # sim_reset refuses designs with method ports; the ticks below do not need it
   for t in range(n):
-    top.in_ @= rng.getrandbits(8); top.sim_eval_combinational(); tr.append(int(top.out)); top.sim_tick()
+    top.in_ @= rng.getrandbits(8)
+    try: top.sim_eval_combinational()
+    except (NameError,NotImplementedError): pass      # only pure-RTL designs have a separate combinational evaluation
+    tr.append(int(top.out)); top.sim_tick(); tr.append(int(top.out))
   return tr
 
 def check_case(repo,c,seed):
